@@ -228,6 +228,7 @@ class _BlockState:
     def __init__(self) -> None:
         self.in_block = False
         self.rules: set[str] = set()
+        self.start_line = 0
 
 
 def _is_valid_line_range(line: int, max_lines: int) -> bool:
@@ -242,6 +243,7 @@ def _process_block_line(
     if has_ignore_start_marker(line):
         state.rules = _parse_ignore_start_rules(line)
         state.in_block = True
+        state.start_line = line_num
         return None
     if has_ignore_end_marker(line):
         return _handle_block_end(line_num, violation, state)
@@ -252,7 +254,8 @@ def _process_block_line(
 
 def _handle_block_end(line_num: int, violation: "Violation", state: _BlockState) -> bool | None:
     """Handle block end marker."""
-    if state.in_block and line_num > violation.line:
+    # Only violations between the start and end markers are inside the block
+    if state.in_block and state.start_line <= violation.line < line_num:
         if rules_match_violation(state.rules, violation.rule_id):
             return True
     state.in_block = False
